@@ -213,3 +213,78 @@ Proof.
   - eapply pass1_no_fail in Hd; eauto. inv Hd.
   - rewrite He in H. cbn in H. inv H. auto.
 Qed.
+
+(* ---------- element copy / assignment failures are isolated ---------- *)
+Definition faulty (o : fop) : bool := match o with FPush _ p => p | FPop r => r end.
+Definition to_op (o : fop) : op := match o with FPush v _ => Push v | FPop _ => Pop end.
+Definition strip_ops (ops : list (nat * fop)) : list (nat * op) :=
+  map (fun p => (fst p, to_op (snd p))) (filter (fun p => negb (faulty (snd p))) ops).
+Definition strip_post (ps : list (nat * bool)) : list nat := map fst (filter (fun p => negb (snd p)) ps).
+Definition strip_res (rs : list (nat * fres)) : list (nat * res) :=
+  flat_map (fun p => match snd p with
+                     | FRPush => [(fst p, RPush)] | FRPop v => [(fst p, RPop v)]
+                     | FRFail => [(fst p, RFail)] | FRPushFail | FRThrow => [] end) rs.
+
+(* results of faulty operations only *)
+Definition fault_only (rs : list (nat * fres)) : list (nat * fres) :=
+  filter (fun p => match snd p with FRPushFail | FRThrow => true | _ => false end) rs.
+
+Lemma pass1f_isolated ops : forall q P D q' P' D',
+  pass1f q ops P D = (q', P', D') ->
+  pass1 q (strip_ops ops) (strip_post P) (strip_res D) = (q', strip_post P', strip_res D').
+Proof.
+  induction ops as [|[i o] tl IH]; intros q P D q' P' D' H; cbn [pass1f] in H.
+  - inv H. reflexivity.
+  - destruct o as [v poison|reject]; unfold strip_ops; cbn [filter faulty snd fst map to_op].
+    + destruct poison; cbn [negb].
+      * apply IH in H. exact H.
+      * cbn [map fst snd to_op pass1]. apply IH in H. exact H.
+    + destruct (back_beats_top q) eqn:E.
+      * destruct reject; cbn [negb].
+        -- apply IH in H. exact H.
+        -- cbn [map fst snd to_op pass1]. rewrite E. apply IH in H. exact H.
+      * destruct reject; cbn [negb].
+        -- apply IH in H. unfold strip_post in H. cbn [filter snd negb] in H. exact H.
+        -- cbn [map fst snd to_op pass1]. rewrite E. apply IH in H. unfold strip_post in H. cbn [filter snd negb map fst] in H. exact H.
+Qed.
+
+(* a rejecting pop that is postponed is answered FRFail when the queue is empty, FRThrow otherwise: in both cases
+   the queue is untouched, so removing it from the pop list changes nothing for the others *)
+Definition strip_res2 (rs : list (nat * fres)) (rej : list nat) : list (nat * res) :=
+  strip_res (filter (fun p => negb (existsb (Nat.eqb (fst p)) rej)) rs).
+
+Lemma pass2f_isolated pops : forall q D q' D' rej,
+  pass2f q pops D = (q', D') ->
+  (forall i, In (i, true) pops -> In i rej) -> (forall i, In (i, false) pops -> ~ In i rej) ->
+  pass2 q (strip_post pops) (strip_res2 D rej) = (q', strip_res2 D' rej).
+Proof.
+  induction pops as [|[i reject] tl IH]; intros q D q' D' rej H Hrej Hnrej; cbn [pass2f] in H.
+  - inv H. reflexivity.
+  - assert (Hrej' : forall j, In (j, true) tl -> In j rej) by (intros; apply Hrej; right; auto).
+    assert (Hnrej' : forall j, In (j, false) tl -> ~ In j rej) by (intros; apply Hnrej; right; auto).
+    unfold strip_post. cbn [filter snd].
+    assert (Hin_rej : forall b, reject = b -> existsb (Nat.eqb i) rej = b).
+    { intros b Hb. subst b. destruct reject.
+      - apply existsb_exists. exists i. split; [apply Hrej; left; auto|apply Nat.eqb_refl].
+      - destruct (existsb (Nat.eqb i) rej) eqn:E; auto. apply existsb_exists in E. destruct E as (x & Hx & Heq).
+        apply Nat.eqb_eq in Heq. subst x. exfalso. apply (Hnrej i); auto. left; auto. }
+    destruct (data q) as [|x d] eqn:Ed.
+    + (* empty: FRFail for everybody; a rejecting pop's FRFail is dropped by strip_res2 *)
+      apply IH with (rej := rej) in H; auto.
+      unfold strip_res2 in H at 1. cbn [filter fst] in H. rewrite (Hin_rej reject eq_refl) in H.
+      destruct reject; cbn [negb] in H |- *.
+      * exact H.
+      * cbn [map fst pass2]. rewrite Ed. unfold strip_res2 at 1. cbn [strip_res flat_map snd fst app] in H. exact H.
+    + rewrite <- Ed in *. destruct reject; cbn [negb].
+      * apply IH with (rej := rej) in H; auto.
+        unfold strip_res2 in H at 1. cbn [filter fst] in H. rewrite (Hin_rej true eq_refl) in H. cbn [negb] in H. exact H.
+      * cbn [map fst pass2]. rewrite Ed. rewrite <- Ed.
+        destruct (back_beats_top q) eqn:E.
+        -- apply IH with (rej := rej) in H; auto.
+           unfold strip_res2 in H at 1. cbn [filter fst] in H. rewrite (Hin_rej false eq_refl) in H.
+           cbn [negb strip_res flat_map snd fst app] in H. exact H.
+        -- destruct (reheap (data q) (mark q)) as [d' m'] eqn:Er.
+           apply IH with (rej := rej) in H; auto.
+           unfold strip_res2 in H at 1. cbn [filter fst] in H. rewrite (Hin_rej false eq_refl) in H.
+           cbn [negb strip_res flat_map snd fst app] in H. exact H.
+Qed.
